@@ -143,6 +143,13 @@ def bgp_classes():
     for d in (-2, -1, 0, 1, 2, 200):
         add('open_optlen_vs_frame', C4, [open_(params=[par], plen=(len(par) + d) & 0xff)])
     add('open_trailing_bytes', C4, [open_(params=[par], tail=[1, 2, 3])])
+    # the frame is 1 / 2 octets shorter than the optional parameter length announces, for every kind of last element
+    for tailp in ([E.opt_param(2, E.cap_rr())], [E.opt_param(2, cat([E.cap_mp(E.IPV4), E.cap_rr()]))], [par, E.opt_param(2, [])], [par, E.opt_param(3, [])],
+                  [E.opt_param(2, E.cap(99, []))], [E.opt_param(2, E.cap_as4(7))], [E.opt_param(2, E.cap_fqdn(b'ab', b''))]):
+        full = open_(params=tailp)
+        for cut in (1, 2, 3):
+            d = full[:-cut]; d[16:18] = be(len(d), 2)
+            add('open_frame_short_of_optlen', C4, [d])
     # parameter length / capability length against their containers
     for d in (-3, -2, -1, 1, 2, 255):
         q = B(list(par.d)); q.d[1] = (q.d[1] + d) & 0xff
@@ -337,5 +344,147 @@ def bgp_classes():
             add('frame_4096_4097', cd, [E.update([], BASE_ATTRS(), nl).d])
     return out
 
+
+# ------------------------------------------------------------------ EVPN, RTC, SR policy, flowspec (modelled since round 3)
+def mp_update(fam, nlris, reach=True, ap=False):
+    nh = [] if (fam & 0xff) in (133, 134) else [10, 0, 0, 1]
+    if reach:
+        attrs = [E.attr(0x40, 1, [0]), E.attr(0x40, 2, []), E.attr(0x80, 14, E.mp_reach_value(fam, nh, nlris))]
+    else:
+        attrs = [E.attr(0x80, 15, E.mp_unreach_value(fam, nlris))]
+    return E.update([], attrs, []).d
+
+def family_classes():
+    out = []
+    def add(cls, fam, nlris, reach=True, ap=False):
+        cd = codec(((E.IPV4, False), (fam, ap)))
+        x = [E.with_path_id(5, n) for n in nlris] if ap else list(nlris)
+        out.append({'k': 'bgp', 'codec': cd, 'chunks': [mp_update(fam, x, reach, ap)], 'cls': 'fam_' + cls})
+    v6 = fill(16, 9)
+    # ---- EVPN: every route type well-formed, reach and unreach, with and without add-path
+    good = {1: [E.evpn_t1()], 2: [E.evpn_t2(), E.evpn_t2(ip=[192, 0, 2, 9]), E.evpn_t2(ip=v6), E.evpn_t2(label2=200), E.evpn_t2(ip=[192, 0, 2, 9], label2=200), E.evpn_t2(ip=v6, label2=200)],
+            3: [E.evpn_t3(), E.evpn_t3(ip=v6)], 4: [E.evpn_t4(), E.evpn_t4(ip=v6)], 5: [E.evpn_t5(), E.evpn_t5(plen=64, ip=v6, gw=v6), E.evpn_t5(plen=255)]}
+    for rt, ds in good.items():
+        for d in ds:
+            for reach in (True, False):
+                for ap in (False, True):
+                    add('evpn_wellformed', E.EVPN, [E.evpn(rt, d)], reach, ap)
+            add('evpn_two_routes', E.EVPN, [E.evpn(rt, d), E.evpn(1, E.evpn_t1())])
+            # every truncation of the route (route length octet kept), and of the whole NLRI
+            full = E.evpn(rt, d).d
+            for k in range(len(full)):
+                add('evpn_truncated_every_offset', E.EVPN, [B(full[:k])])
+            # route length octet: 0, minimum-1, exact-1, exact+1, exact+3 (the label2 switch), 255 - with the bytes unchanged and with filler after
+            for rl in sorted(set([0, 1, 16, 17, 22, 23, 24, 25, 26, 32, 33, 34, 35, 36, 37, 40, 52, 57, 58, 59, len(d) - 1, len(d) + 1, len(d) + 3, 255])):
+                add('evpn_route_length_octet', E.EVPN, [E.evpn(rt, d, rl=rl)])
+                add('evpn_route_length_octet', E.EVPN, [E.evpn(rt, d + fill(6), rl=rl)])
+    for rt in (0, 6, 7, 127, 255):
+        add('evpn_route_type_values', E.EVPN, [E.evpn(rt, E.evpn_t1())])
+    for il in (0, 1, 31, 32, 33, 64, 127, 128, 129, 255):
+        add('evpn_ip_length_octet', E.EVPN, [E.evpn(2, E.evpn_t2(ip=v6, ip_len=il))])
+        add('evpn_ip_length_octet', E.EVPN, [E.evpn(2, E.evpn_t2(ip=[1, 2, 3, 4], ip_len=il))])
+        add('evpn_ip_length_octet', E.EVPN, [E.evpn(2, E.evpn_t2(ip_len=il))])
+        add('evpn_ip_length_octet', E.EVPN, [E.evpn(3, E.evpn_t3(ip=v6, ip_len=il)), E.evpn(4, E.evpn_t4(ip=[1, 2, 3, 4], ip_len=il))])
+    for ml in (0, 47, 48, 49, 255):
+        add('evpn_mac_length_octet', E.EVPN, [E.evpn(2, E.evpn_t2(mac_len=ml))])
+    for t in (0, 1, 2, 3, 255, 256):
+        for rt, mk in ((1, E.evpn_t1), (2, E.evpn_t2), (3, E.evpn_t3), (4, E.evpn_t4), (5, E.evpn_t5)):
+            add('evpn_rd_types', E.EVPN, [E.evpn(rt, mk(rd=be(t, 2) + fill(6)))])
+    # ---- RTC: prefix length octet x octets present
+    for bits in (0, 1, 8, 31, 32, 33, 64, 95, 96, 97, 128, 255):
+        for have in sorted(set([0, 3, 4, 5, 11, 12, 13])):
+            add('rtc_length_x_octets', E.RTC, [E.rtc(bits, fill(have))])
+    add('rtc_several', E.RTC, [E.rtc(0, []), E.rtc(32, fill(4)), E.rtc(96, fill(12)), E.rtc(0, [])])
+    add('rtc_several', E.RTC, [E.rtc(96, fill(12))], reach=False)
+    add('rtc_several', E.RTC, [E.rtc(32, fill(4))], ap=True)
+    # ---- SR policy: length octet x endpoint octets present, both AFIs
+    for fam in (E.IPV4_SRP, E.IPV6_SRP):
+        for bits in (0, 95, 96, 97, 191, 192, 193, 255):
+            for have in (0, 3, 4, 5, 15, 16, 17):
+                add('srpolicy_length_x_octets', fam, [E.srp(bits, 1, 2, fill(have))])
+        for k in range(0, 10):
+            add('srpolicy_truncated', fam, [B(E.srp(96, 1, 2, [1, 2, 3, 4]).d[:k])])
+        add('srpolicy_two', fam, [E.srp(96, 1, 2, [1, 2, 3, 4]), E.srp(192, 0xffffffff, 0, fill(16))])
+    # ---- flowspec: the length prefix switch (one octet below 240, two octets 0xF0|hi, lo from 240 on)
+    fs4, fs6, fv4, fv6 = E.IPV4_FS, E.IPV6_FS, E.IPV4_FSVPN, E.IPV6_FSVPN
+    def rule_of(n):
+        """components totalling exactly n octets (n >= 0): port lists of 1-octet values, 2 octets per operator"""
+        comps = []
+        rem = n
+        ty = 4
+        while rem > 0:
+            take = min(rem, 41)           # type + 20 operators
+            if take % 2 == 0: take -= 1   # type octet + 2k operator octets is odd
+            if take < 3:
+                comps.append(E.fs_prefix4(1, 0, []) if rem == 2 else [])
+                if rem == 1: return None
+                rem -= 2
+                continue
+            k = (take - 1) // 2
+            comps.append(E.fs_ops(ty, [(1, i & 0xff) for i in range(k)]))
+            ty = ty + 1 if ty < 12 else 4
+            rem -= take
+        return [c for c in comps if c]
+    for n in (0, 2, 3, 5, 238, 239, 240, 241, 242, 255, 256, 257, 4000):
+        comps = rule_of(n)
+        if comps is None: continue
+        for two in (None, False, True):
+            if two is False and n > 255: continue
+            cd = codec(((E.IPV4, False), (fs4, False)), ext=(n > 3000))
+            out.append({'k': 'bgp', 'codec': cd, 'chunks': [mp_update(fs4, [E.flowspec(comps, force_two=two)])], 'cls': 'fam_flowspec_length_prefix_240'})
+    # announced length against the bytes present / the enclosing attribute
+    one = [E.fs_prefix4(1, 24, [10, 0, 0]), E.fs_ops(3, [(1, 6)])]
+    body = [b for c in one for b in c]
+    for nl in (0, 1, len(body) - 1, len(body), len(body) + 1, 239, 240, 255):
+        for two in (False, True):
+            add('flowspec_length_vs_bytes', fs4, [B(E.fs_len(nl, two) + body)])
+    for k in range(0, len(body) + 2):
+        add('flowspec_truncated_every_offset', fs4, [B((E.fs_len(len(body)) + body)[:k])])
+        add('flowspec_truncated_every_offset', fs6, [B((E.fs_len(8) + E.fs_prefix6(1, 32, 0, [0x20, 1, 0xd, 0xb8]))[:k])])
+    add('flowspec_empty_rules', fs4, [B([0]), B([0]), E.flowspec(one)])
+    add('flowspec_empty_rules', fs4, [B([0xf0, 0])])
+    # every component type x address family, operators of every value width, end bit present / absent
+    for fam, v6f in ((fs4, False), (fs6, True)):
+        for ty in range(0, 16):
+            if ty in (1, 2):
+                for bits in (0, 1, 8, 24, 31, 32, 33, 64, 127, 128, 129, 255):
+                    for off in ((0, 8, 255) if v6f else (0,)):
+                        for d in (0, -1, 1):
+                            n = max(0, (bits + 7) // 8 + d)
+                            c = (E.fs_prefix6(ty, bits, off, fill(40))[:3 + n]) if v6f else (E.fs_prefix4(ty, bits, fill(40))[:2 + n])
+                            add('flowspec_prefix_component', fam, [E.flowspec([c])])
+            else:
+                add('flowspec_component_types', fam, [E.flowspec([E.fs_ops(ty, [(1, 80)])])])
+                add('flowspec_component_types', fam, [E.flowspec([E.fs_ops(ty, [(1, 80)]), E.fs_prefix4(1, 0, [])] if not v6f else [E.fs_ops(ty, [(1, 80)]), E.fs_prefix6(1, 0, 0, [])])])
+        for order in range(4):
+            for v in (0, 0xff, 0x100, 0xffff, 0x10000, 0xffffffff, 0x100000000, 0xffffffffffffffff):
+                if v >= (1 << (8 * (1 << order))): continue
+                add('flowspec_operator_widths', fam, [E.flowspec([[5] + E.fs_op(0x81, v, order)])])
+                add('flowspec_operator_widths', fam, [E.flowspec([[5] + E.fs_op(0x01, v, order) + E.fs_op(0xc5, 1, 0)])])
+            full = [5] + E.fs_op(0x81, 0x0102030405060708 & ((1 << (8 * (1 << order))) - 1), order)
+            for k in range(1, len(full)):
+                add('flowspec_operator_truncated', fam, [E.flowspec([full[:k]])])
+        add('flowspec_no_end_bit', fam, [E.flowspec([E.fs_ops(5, [(1, 80), (1, 443)], end=False)])])
+        add('flowspec_no_end_bit', fam, [E.flowspec([E.fs_ops(5, [(1, 80)], end=False), E.fs_ops(6, [(1, 1)])])])
+        for bits_ in (0x00, 0x40, 0x07, 0x30, 0xb1):
+            add('flowspec_operator_bits', fam, [E.flowspec([[9] + E.fs_op(bits_ | 0x80, 0x12)])])
+        add('flowspec_many_rules', fam, [E.flowspec(one if not v6f else [E.fs_ops(3, [(1, 6)])]), E.flowspec([E.fs_ops(4, [(3, 1), (0x45, 1023)])])], reach=False)
+    # flowspec-VPN: announced length around the 8 RD octets, RD types
+    for fam in (fv4, fv6):
+        for nl in (0, 1, 7, 8, 9):
+            add('flowspec_vpn_length_vs_rd', fam, [B(E.fs_len(nl) + (E.RD0 + [3, 0x81, 6])[:nl])])
+        for t in (0, 1, 2, 3, 255):
+            add('flowspec_vpn_rd_types', fam, [E.flowspec([E.fs_ops(3, [(1, 6)])], rd=be(t, 2) + fill(6))])
+        add('flowspec_vpn_wellformed', fam, [E.flowspec([E.fs_ops(3, [(1, 6)]), E.fs_ops(5, [(1, 80)])], rd=E.RD0)], ap=True)
+    # next-hop length 0 is only legal for the flowspec families: every family x next-hop length 0
+    for fam in E.ALL_MODELLED:
+        if fam == E.IPV4: continue
+        cd = codec(((E.IPV4, False), (fam, False)))
+        v = B(be(fam >> 16, 2) + [fam & 0xff, 0, 0]) + B([0])
+        out.append({'k': 'bgp', 'codec': cd, 'chunks': [E.update([], BASE_ATTRS()[:2] + [E.attr(0x80, 14, v)], []).d], 'cls': 'fam_nexthop_length_zero_x_family'})
+        v = B(be(fam >> 16, 2) + [fam & 0xff, 4, 1, 1, 1, 1, 0]) + B([0])
+        out.append({'k': 'bgp', 'codec': cd, 'chunks': [E.update([], BASE_ATTRS()[:2] + [E.attr(0x80, 14, v)], []).d], 'cls': 'fam_nexthop_length_zero_x_family'})
+    return out
+
 def enum_cases():
-    return bfd_classes() + rtr_classes() + bgp_classes()
+    return bfd_classes() + rtr_classes() + bgp_classes() + family_classes()
